@@ -151,6 +151,25 @@ def run_check(prop, tier, verif_seed, nruns, jobs, wall_cap, evidence_path=None,
 
     info = core.run_batches(prop, engine, verif_seed, tier, nruns, jobs, wall_cap, on_result, start=start)
 
+    # ---- a run that hit the wall-clock limit of its child proves nothing either way: once the pool
+    # is idle, execute the same scenario again (same seed, hence same scenario) with three times the
+    # limit; only a run that times out twice stays a HARNESS-TIMEOUT (exit 2, never exit 0 or 1)
+    retried = 0
+    for rec in list(agg['tout']):
+        if rec.get('scenario') is None:
+            continue
+        retried += 1
+        rr = core.execute_scenario(engine, rec['scenario'], f'retry-{rec["i"]}',
+                                   timeout=3 * getattr(engine, 'run_timeout', 60.0))
+        if rr['verdict'] == 'timeout':
+            continue
+        agg['tout'].remove(rec)
+        agg['runs'] -= 1
+        agg['digests'] = [d for d in agg['digests'] if d[0] != rec['i']]
+        on_result(dict(rec, verdict=rr['verdict'], violation=rr['violation'], detail=rr['detail'],
+                       stats=rr['stats'], digest=rr['digest']))
+    agg['extra']['timeouts_retried'] = retried
+
     # ---- triage violations: group, shrink, replay-verify, match findings
     findings = load_findings()
     groups = {}
